@@ -1197,7 +1197,9 @@ class _CycleCell(_Cell):
         self._value = None
         self._prev_value = None
         self.wip = False
+        self._constructed = False
         super().__init__(*args, **kwargs)
+        self._constructed = True
 
     @property
     def value(self):
@@ -1208,6 +1210,10 @@ class _CycleCell(_Cell):
 
     @value.setter
     def value(self, a_value):
+        if not getattr(self, '_constructed', True):
+            # the value a cell is created with has not been calculated
+            self._value = a_value
+            return
         iterative_eval_tracker.calced(self)
         self.wip = False
         self._value = a_value
